@@ -70,6 +70,21 @@ pub fn check(ls: &LangSet, code: &str, s: &str, r: &str) -> (bool, usize, Option
     (true, n, None)
 }
 
+/// stream form: caller tokens with hints, the same stream with recased token texts
+pub fn check_stream(ls: &LangSet, code: &str, toks: &[crate::api::IdTok], recased: &[crate::api::IdTok]) -> (usize, Option<String>) {
+    let api = ls.api(code);
+    let mut n = 0;
+    for &t in THRESHOLDS.iter() {
+        let a = api.find(toks, t);
+        let b = api.find(recased, t);
+        n = n.max(a.len());
+        if a != b {
+            return (n, Some(format!("stream, threshold {}: occurrences are {} but for the recased stream they are {} | stream: {} | recased: {}", t, crate::api::show_occs(&a), crate::api::show_occs(&b), crate::streams::show_stream(toks), crate::streams::show_stream(recased))));
+        }
+    }
+    (n, None)
+}
+
 pub fn run(ctx: &Ctx) -> Outcome {
     let n_texts = ctx.n(600_000, 12_000_000);
     let rep = run_sharded(ctx, |w, nw, rep| {
@@ -81,6 +96,37 @@ pub fn run(ctx: &Ctx) -> Outcome {
             }
             let code = LANGS[(i % 7) as usize];
             let lex = ls.lexicon(code);
+            if i % 4 == 3 {
+                // stream form with hints (the hints sit on the same tokens in both streams)
+                let opts = crate::streams::StreamOpts { random_case: false, nan_permille: 150, sep_permille: 80, ..crate::streams::StreamOpts::hinted(10) };
+                let toks = crate::streams::gen_stream(&mut rng, lex, &opts);
+                let mut ok = true;
+                let recased: Vec<crate::api::IdTok> = toks
+                    .iter()
+                    .map(|t| {
+                        let r = recase(&mut rng, &t.text);
+                        if r.to_lowercase() != t.lower {
+                            ok = false;
+                        }
+                        let mut n = crate::api::IdTok::new(t.id, &r);
+                        n.sep = t.sep;
+                        n.nan = t.nan;
+                        n
+                    })
+                    .collect();
+                if !ok {
+                    rep.count("skipped_case_mapping_not_reversible");
+                    continue;
+                }
+                crate::core::set_current(code, "find_numbers on a recased hinted stream", &crate::streams::show_stream(&recased));
+                let (n_occ, fail) = check_stream(&ls, code, &toks, &recased);
+                rep.eval(crate::streams::stream_hash(code, &recased), n_occ > 0);
+                rep.count("hinted_stream_cases");
+                if let Some(msg) = fail {
+                    rep.violation(&format!("{}:stream", code), jobj! {"kind" => "recase-stream", "lang" => code, "tokens" => crate::streams::stream_json(&toks), "recased" => crate::streams::stream_json(&recased)}, format!("[{}] {}", code, msg));
+                }
+                continue;
+            }
             let s = if i % 3 == 0 { crate::gen::linking_sentence(&mut rng, lex, 8) } else { workload_text(&mut rng, lex, 10) };
             let r = recase(&mut rng, &s);
             crate::core::set_current(code, "find_numbers / replace_numbers_in_text / text2digits", &r);
@@ -96,11 +142,16 @@ pub fn run(ctx: &Ctx) -> Outcome {
             }
         }
     });
-    let rule = "cases = (text, recased text): texts from hostile text, annotator-state templates and lower-case sentences rich in linking words between small numbers; recasing = all upper / capitalised / per-character random, applied only to characters whose upper-then-lower mapping returns to themselves; compared: validation result, token count, occurrences tuple for tuple at thresholds 0,3,10,inf, and the rewrite of the recased text against the splice of its own tokens; non-trivial = recasing changed the text and at least one number was recognised";
+    let rule = "cases = (text, recased text): texts from hostile text, annotator-state templates and lower-case sentences rich in linking words between small numbers; recasing = all upper / capitalised / per-character random, applied only to characters whose upper-then-lower mapping returns to themselves; compared: validation result, token count, occurrences tuple for tuple at thresholds 0,3,10,inf, and the rewrite of the recased text against the splice of its own tokens; a quarter of the cases are hinted caller-token streams (not-a-number and separation hints kept on the same tokens) compared before/after recasing; non-trivial = recasing changed the text and at least one number was recognised";
     finish(ctx, rep, rule, &["texts whose whole-string lowercase differs after recasing (context-dependent mappings such as final sigma) are outside the quantifier and skipped"], vec![])
 }
 
 pub fn replay(case: &J) -> Vec<String> {
     let ls = LangSet::new();
+    if case.str_of("kind") == "recase-stream" {
+        let a = crate::streams::stream_from_json(case.get("tokens").unwrap_or(&J::Null));
+        let b = crate::streams::stream_from_json(case.get("recased").unwrap_or(&J::Null));
+        return check_stream(&ls, &case.str_of("lang"), &a, &b).1.into_iter().collect();
+    }
     check(&ls, &case.str_of("lang"), &case.str_of("s"), &case.str_of("r")).2.into_iter().collect()
 }
